@@ -297,3 +297,59 @@ package mqtt
 //@ ensures C03-routed-at-most-once: nrouted <= old(nrouted) + 1 && nretain <= old(nretain) + 1
 //@ ensures C25-routed-expiry-is-smaller-nonzero-interval: nrouted == old(nrouted) + 1 && min0(s.Options.Capabilities.MaximumMessageExpiryInterval, int64(pk.Properties.MessageExpiryInterval)) > 0 && publishErr == nil ==> routedpk[old(nrouted)].Expiry == routedpk[old(nrouted)].Created + min0(s.Options.Capabilities.MaximumMessageExpiryInterval, int64(pk.Properties.MessageExpiryInterval))
 //@ ensures C38-counter-follows-table: r0 == nil ==> s.Info.Inflight - old(s.Info.Inflight) == len(ifl(cl)) - old(len(ifl(cl)))
+
+// ======================================================================================
+// Sessions: takeover / resume (C09, C11, C14)
+// ======================================================================================
+// abstract subscription index: per (client id, filter) presence, maintained by the trie operations
+// verif:ghost var subsview (Array Str (Array Str Bool))
+// verif:ghost field abool ref bool
+
+// verif:ext atomic.Bool.Store params=b,val
+//@ modifies b.abool
+//@ ensures b.abool == val
+// verif:ext atomic.Bool.Load pure params=b
+//@ ensures result == b.abool
+
+// registry invariant: registered clients are valid objects (trusted; established by newClient/attachClient)
+// verif:func mqtt.Clients.Get trusted
+//@ ensures r1 <==> has(cl.internal, id)
+//@ ensures r1 ==> r0 == cl.internal[id] && validCl(r0) && r0.State.Subscriptions != nil && r0.ID == id
+//@ ensures !r1 ==> r0 == nil
+
+// verif:func mqtt.Server.UnsubscribeClient trusted
+//@ modifies subsview, nev, evkind, evcl, evid, all(system.Info.Subscriptions), entries(cl.State.Subscriptions.internal)
+//@ ensures len(cl.State.Subscriptions.internal) == 0
+
+// verif:func mqtt.Client.ClearInflights trusted
+//@ modifies entries(cl.State.Inflight.internal), nev, evkind, evcl, evid, all(system.Info.Inflight)
+//@ ensures len(cl.State.Inflight.internal) == 0 && (forall k uint16 :: !has(cl.State.Inflight.internal, k))
+
+// verif:func mqtt.Inflight.Clone trusted fresh
+//@ ensures r0 != nil && fresh(r0) && r0.internal != nil && r0.internal != i.internal
+//@ ensures forall k uint16 :: (has(r0.internal, k) <==> has(i.internal, k)) && r0.internal[k] == i.internal[k]
+//@ ensures len(r0.internal) == len(i.internal)
+//@ ensures r0.receiveQuota == 0 && r0.sendQuota == 0 && r0.maximumReceiveQuota == 0 && r0.maximumSendQuota == 0
+
+// verif:func mqtt.Subscriptions.GetAll trusted
+//@ ensures r0 != nil && fresh(r0)
+//@ ensures forall k string :: (has(r0, k) <==> has(s.internal, k)) && r0[k] == s.internal[k]
+// verif:func mqtt.Subscriptions.Add trusted
+//@ modifies entries(s.internal)
+//@ ensures has(s.internal, id)
+// verif:func mqtt.TopicsIndex.Subscribe trusted
+//@ modifies subsview
+//@ ensures r0 <==> !old(subsview[client][subscription.Filter])
+//@ ensures subsview[client][subscription.Filter]
+
+// verif:func mqtt.Server.inheritClientSession modifies=all
+//@ requires validCl(cl) && validSrv(s) && s.Clients != nil && s.Topics != nil && cl.State.Subscriptions != nil && cl.ops.options != nil && cl.ops.options.Capabilities != nil
+//@ requires !s.Options.Capabilities.Compatibilities.PassiveClientDisconnect
+// the connecting client is not registered yet (attachClient registers it after this call)
+//@ requires !has(s.Clients.internal, cl.ID) || s.Clients.internal[cl.ID] != cl
+//@ ensures C14-session-present-exactly-when-resumed: r0 <==> (old(has(s.Clients.internal, cl.ID)) && !pk.Connect.Clean && !(old(s.Clients.internal[cl.ID].Properties.Clean) && old(s.Clients.internal[cl.ID].Properties.ProtocolVersion) < 5))
+//@ ensures C14-old-connection-disconnected-with-takeover-code: old(has(s.Clients.internal, cl.ID)) ==> old(s.Clients.internal[cl.ID]).stopped && old(s.Clients.internal[cl.ID]).disccode == 142
+//@ ensures C14-clean-start-leaves-nothing: old(has(s.Clients.internal, cl.ID)) && !r0 ==> len(old(s.Clients.internal[cl.ID]).State.Inflight.internal) == 0 && len(old(s.Clients.internal[cl.ID]).State.Subscriptions.internal) == 0
+//@ ensures C09-resume-keeps-unacknowledged-messages: r0 && old(len(s.Clients.internal[cl.ID].State.Inflight.internal)) > 0 ==> (forall k uint16 :: (has(ifl(cl), k) <==> old(has(s.Clients.internal[cl.ID].State.Inflight.internal, k))) && ifl(cl)[k] == old(s.Clients.internal[cl.ID].State.Inflight.internal[k]))
+//@ ensures C11-send-quota-from-the-new-connection: r0 && old(len(s.Clients.internal[cl.ID].State.Inflight.internal)) > 0 && cl.ops.options.Capabilities.ReceiveMaximum != 0 ==> cl.State.Inflight.maximumSendQuota == int32(cl.Properties.Props.ReceiveMaximum) && cl.State.Inflight.maximumReceiveQuota == int32(cl.ops.options.Capabilities.ReceiveMaximum)
+//@ ensures C14-no-session-no-effect: !old(has(s.Clients.internal, cl.ID)) ==> !r0 && cl.State.Inflight == old(cl.State.Inflight)
